@@ -11,7 +11,6 @@ into a raw byte stream.
 import logging
 import struct
 import typing
-import warnings
 
 from pamqp import (base, body, commands, common, constants, decode, exceptions,
                    header, heartbeat)
@@ -170,10 +169,9 @@ def _unmarshal_method_frame(frame_data: bytes) -> base.Frame:
             'Unknown', 'Unknown method index: {}'.format(str(method_index)))
     except Warning:
         # The deprecated method warns when it is created and warnings are
-        # raised as errors: it was received, not created by the application
-        with warnings.catch_warnings():
-            warnings.simplefilter('ignore')
-            method = commands.INDEX_MAPPING[method_index]()
+        # raised as errors: it was received, not created by the application.
+        # unmarshal() assigns every argument, the constructor is not needed
+        method = object.__new__(commands.INDEX_MAPPING[method_index])
     try:
         method.unmarshal(frame_data[bytes_used:])
     except _DECODE_ERRORS as error:
